@@ -316,3 +316,30 @@ Proof.
   exact (einsum_dot_is_the_sum_of_products inp F BC CC d1 d2 dout Hp1 Hp2 Hpo Hn1 Hn2 Hcoh Hein X Y HX HY rho).
 Qed.
 Print Assumptions C01_einsum_dot_is_the_sum_of_products.
+
+(* Operations that keep the shape and act along the bracketed axes (flip, roll).  Model/Lower.v ([lower_preserve]): reshape to
+   the leaf axes, the backend function with axis = the tuple of bracketed leaf positions, rearrangement of the leaf axes into
+   the output.  The backend function itself is numpy's; around it: it sees each element at its leaf coordinates, axis= is
+   exactly the bracketed positions, and what it returns at the leaf coordinates is found at the output expression's position. *)
+From EinxV Require Import Proofs.PreserveProofs.
+Theorem C01_shape_preserving_operation_sees_the_leaf_view :
+  forall (V : Type) (inp : nat -> entries V) F BC CC (din dout : list pex),
+  preserve_ok din dout = true ->
+  forall rho v, in_bounds rho din -> In (map (pidx rho) din, v) (inp 0%nat) ->
+  In (map (lookup rho) (lnames din), v) (meval V inp F BC CC (MReshape (MIn 0 (map psize din)) (llens din))).
+Proof. intros V inp F BC CC din dout Hok rho v. exact (preserve_sees_the_leaf_view V inp F BC CC din dout Hok rho v). Qed.
+Print Assumptions C01_shape_preserving_operation_sees_the_leaf_view.
+
+Theorem C01_shape_preserving_axes_are_the_brackets : forall (din : list pex) k,
+  In k (EinxV.Gen.GenAdapter.gen_expr_to_axis (lmarks din)) <-> nth k (lmarks din) false = true.
+Proof. exact preserve_axes_are_the_brackets. Qed.
+Print Assumptions C01_shape_preserving_axes_are_the_brackets.
+
+Theorem C01_shape_preserving_result_is_placed_by_the_output :
+  forall (V : Type) (inp : nat -> entries V) F BC CC f extra kwlit (din dout : list pex),
+  preserve_ok din dout = true ->
+  forall rho v, in_bounds rho din -> in_bounds rho dout ->
+  In (map (lookup rho) (lnames din), v) (preserve_result V inp F BC CC f extra kwlit din) ->
+  In (map (pidx rho) dout, v) (meval V inp F BC CC (lower_preserve f extra kwlit din dout)).
+Proof. intros V inp F BC CC f extra kwlit din dout Hok rho v. exact (lower_preserve_correct V inp F BC CC f extra kwlit din dout Hok rho v). Qed.
+Print Assumptions C01_shape_preserving_result_is_placed_by_the_output.
